@@ -8,6 +8,7 @@ package classifier
 // argument aliases the corpus document's own rune array.
 
 import (
+	"bytes"
 	"errors"
 	"fmt"
 	"os"
@@ -148,6 +149,10 @@ func TestVerifV2Conc(t *testing.T) {
 	VerifSink = nil
 	v2AloneVsConcurrent(vt)
 	v2ColdDictionaryWords(vt)
+	v2AdjacentInputs(vt)
+	if why := v2Spoiled.Load(); why != nil {
+		vt.emit(map[string]interface{}{"ev": "argfault", "why": why})
+	}
 	vt.emit(map[string]interface{}{"ev": "diffcalls", "shared": shared, "private": private})
 	if os.Getenv("VERIF_DEBUG") != "" {
 		fmt.Fprintf(os.Stderr, "diffcalls shared=%d private=%d\n", shared, private)
@@ -259,4 +264,64 @@ func v2ColdDictionaryWords(vt *v2T) {
 		}
 		wg.Wait()
 	}
+}
+
+// ---------------------------------------------------------------------------------------------
+// Inputs that are adjacent sub-slices of ONE buffer (an arena, a memory-mapped archive): the capacity of the first reaches
+// over the second.  Matched from two goroutines, each must give what its bytes give alone, and the buffer must read afterwards
+// as it did before.
+func v2AdjacentInputs(vt *v2T) {
+	var docs []v2Doc
+	for _, d := range v2Corpus() {
+		if d.Key == "License/MIT/pristine.txt" || d.Key == "License/ISC/license.txt" || d.Key == "License/BSD-2-Clause/license.txt" || d.Key == "License/Zlib/license.txt" {
+			docs = append(docs, d)
+		}
+	}
+	c := vt.build("c09adj", 0.8, docs)
+	var parts [][]byte
+	for _, d := range docs {
+		parts = append(parts, []byte(strings.TrimRight(string(d.Data), " \t\r\n"))) // no white space at the end: the next input follows at once
+	}
+	var arena []byte
+	var cut []int
+	for _, p := range parts {
+		cut = append(cut, len(arena))
+		arena = append(arena, p...)
+	}
+	cut = append(cut, len(arena))
+	arena = append(make([]byte, 0, len(arena)+64), arena...)
+	orig := append([]byte(nil), arena...)
+	for i, p := range parts {
+		vt.match(c, p, v2MatchOpts{memo: fmt.Sprintf("c09adj|%d", i)})
+	}
+	var emu sync.Mutex
+	for round := 0; round < 4; round++ {
+		var wg sync.WaitGroup
+		for i := range parts {
+			wg.Add(1)
+			go func(i int) {
+				defer wg.Done()
+				in := arena[cut[i]:cut[i+1]] // len = the part, cap = everything behind it
+				var res Results
+				if (i+round)%2 == 0 {
+					res = c.c.Match(in)
+				} else {
+					res, _ = c.c.MatchFrom(bytes.NewReader(in))
+				}
+				emu.Lock()
+				vt.emitMatch(c, parts[i], res, fmt.Sprintf("c09adj|%d", i), "Match")
+				emu.Unlock()
+			}(i)
+		}
+		wg.Wait()
+		if !bytes.Equal(arena, orig) {
+			i := 0
+			for arena[i] == orig[i] {
+				i++
+			}
+			vt.emit(map[string]interface{}{"ev": "argfault", "why": fmt.Sprintf("after matching adjacent sub-slices of one buffer, byte %d of the buffer reads %q, was %q (parts start at %v)", i, arena[i], orig[i], cut)})
+			copy(arena, orig)
+		}
+	}
+	vt.reset(false)
 }
